@@ -142,6 +142,10 @@ def gen_config(rng, profile="any", tier="quick"):
             leave[a] = (rng.choice(sched[:max(1, len(sched) // 2)] if everyone else sched) + rng.choice([0, 0, 60])) \
                 if (sched and rng.random() < 0.6) else (start + rng.randrange(0, max(1, (end - start) // (2 if everyone else 1))))
         cfg["universe"] = {"kind": "leaving", "assets": list(assets), "leave": leave}
+    if dynamic and profile in ("C19", "any") and rng.random() < 0.2:
+        cfg["universe"]["cursor"] = True
+    if cfg["universe"]["kind"] == "leaving":
+        cfg["universe"]["ret"] = rng.choice(["list", "list", "tuple", "gen"])
     if dynamic and rng.random() < 0.3:
         cfg["universe"]["absent_as_nat"] = True
     if dynamic and rng.random() < 0.25:
@@ -159,13 +163,15 @@ def gen_config(rng, profile="any", tier="quick"):
         faults.append("empty_cell")
     if rng.random() < 0.3:
         faults.append("shuffle_rows")
+    if rng.random() < 0.2:
+        faults.append("halt")              # a week or two without bars for an asset: prices are carried forward
     pre_days = rng.choice([0, 1, 3, 10]) if not lead else rng.choice([0, 0, 0, 1, 3])
     md0 = d0 - pre_days
     while not cal.is_bday(md0):
         md0 -= 1
     n_market = len(cal.business_days(md0 * DAY, d1 * DAY))
     if rng.random() < 0.15:
-        n_market = max(2, n_market - rng.randrange(1, 4))           # data end before the backtest does
+        n_market = max(2, n_market - rng.choice([1, 2, 3, 3, 8, 15]))           # data end before the backtest does
     if cfg["adjust"] is False and profile in ("C14", "any") and rng.random() < 0.5:
         faults.append("empty_cell")
     jump_p = 0.0
@@ -230,6 +236,8 @@ def gen_config(rng, profile="any", tier="quick"):
         kinds = ["topn", "sma", "invvol", "single"]
     kind = rng.choice(kinds)
     alpha = {"kind": kind}
+    if kind in ("topn", "sma", "invvol") and cfg["universe"].get("ret"):
+        cfg["universe"]["ret"] = "list"       # the signals append to what the universe hands them: a list it must be
     if kind == "fixed":
         w = {}
         for a in assets:
@@ -578,7 +586,12 @@ def build_session(cfg, dirpath, shared_source=None, shared_inputs=None):
                 self._leave = dict((a, ts(t)) for a, t in leave.items())
 
             def get_assets(self, dt):
-                return [a for a in self._assets if a not in self._leave or dt < self._leave[a]]
+                out = [a for a in self._assets if a not in self._leave or dt < self._leave[a]]
+                if u.get("ret") == "gen":
+                    return (a for a in out)           # a one-shot iterator
+                if u.get("ret") == "tuple":
+                    return tuple(out)
+                return out
         universe = LeavingUniverse(u["assets"], u["leave"])
     elif u["kind"] == "static":
         universe = StaticUniverse(list(u["assets"]))
@@ -595,6 +608,24 @@ def build_session(cfg, dirpath, shared_source=None, shared_inputs=None):
                 return t_.to_pydatetime()          # a plain tz-aware datetime.datetime
             return t_
         universe = DynamicUniverse(dict((a, _entry(a, e)) for a, e in u["entries"].items()))
+        if u.get("cursor"):
+            from qstrader.asset.universe.universe import Universe
+
+            class ListingCalendarUniverse(Universe):
+                """harness stub: DynamicUniverse semantics implemented with a forward-only cursor over the listing
+                calendar - correct for every caller that asks in chronological order, as a backtest does"""
+
+                def __init__(self, entries):
+                    self._cal = sorted(((ts(e), a) for a, e in entries.items() if e is not None), key=lambda z: (z[0], z[1]))
+                    self._i = 0
+                    self._members = []
+
+                def get_assets(self, dt):
+                    while self._i < len(self._cal) and self._cal[self._i][0] <= dt:
+                        self._members.append(self._cal[self._i][1])
+                        self._i += 1
+                    return list(self._members)
+            universe = ListingCalendarUniverse(u["entries"])
     data_handler = None
     if shared_source is not None:
         data_handler = BacktestDataHandler(universe, data_sources=[shared_source])
